@@ -190,12 +190,12 @@ func (c17) Generate(r *engine.Rand, index int, tier string) *engine.Scenario {
 			if r.Bool() {
 				// LCDC rewritten (LCD left on; objects, their size, the window switched) during the OAM scan
 				// of the very line on which the pointer block then runs in mode 3 or 0
-				g.emit(0x3e, 0x80|r.Byte()&0x7f|0x02, 0xe0, 0x40)      // objects on first
+				g.emit(0x3e, 0x80|r.Byte()&0x7f|0x02, 0xe0, 0x40) // objects on first
 				v := 0x80 | r.Byte()&0x7f
 				if r.Chance(2, 3) {
 					v &^= 0x02 // objects off
 				}
-				g.emit(0x06, v)                                        // LD B,v
+				g.emit(0x06, v) // LD B,v
 				g.filler(r.Intn(12))
 				g.emit(0xf0, 0x41, 0xe6, 0x03, 0xfe, 0x02, 0x28, 0xf8) // leave mode 2: LDH A,(41) ; AND 3 ; CP 2 ; JR Z,loop
 				g.emit(0xf0, 0x41, 0xe6, 0x03, 0xfe, 0x02, 0x20, 0xf8) // the scan begins: ... JR NZ,loop
